@@ -11,6 +11,9 @@ def _is_app(e, name):
     return z3.is_app(e) and e.decl().name() == name
 
 
+PRIVATE: set = set()  # "A_<attr>" names of private container attributes (filled from the object model by the VC generator)
+
+
 class HeapRewriter:
     def __init__(self, pc, region_attrs, fresh_terms=()):
         self.fresh = {t.get_id() for t in fresh_terms}
@@ -56,6 +59,9 @@ class HeapRewriter:
         if z3.is_app(a) and z3.is_app(b):
             na, nb = a.decl().name(), b.decl().name()
             if na in self.region and nb in self.region and na != nb:
+                return True
+            # a PRIVATE attribute holds a container shared with no other attribute of any object (model_decl.PRIVATE_ATTRS)
+            if na != nb and na.startswith("A_") and nb.startswith("A_") and (na in PRIVATE or nb in PRIVATE) and a.num_args() == 1 and b.num_args() == 1:
                 return True
         return False
 
